@@ -324,6 +324,9 @@ func needsPoint(s ast.Stmt) bool {
 		return !found
 	}
 	switch x := s.(type) {
+	case *ast.CommClause, *ast.CaseClause:
+		// clauses of a select/switch body: their own statement lists are rewritten separately
+		return false
 	case *ast.IfStmt:
 		if x.Init != nil {
 			ast.Inspect(x.Init, visit)
